@@ -15,7 +15,7 @@ from mc.drivers import stores as S
 from mc.lattice import Emb, chunked
 
 BOUNDS = {
-    "quick": {"max_len": 4, "lattice": "0..5", "labels": 2, "pulsetimes_units": [0, 1], "units_us": [1_000_000]},
+    "quick": {"max_len": 4, "lattice": "0..5", "labels": 2, "pulsetimes_units": [0, 1], "units_us": [1_000_000], "sub_second": "all streams of <=3 heartbeats on 0..4 at 1 ms and 100 ms units", "noise": "all streams of 2-3 heartbeats on 0..4 x every sequence of {read other bucket, rejected delete / update of a missing bucket} between the heartbeats"},
     "thorough": {"max_len": 5, "lattice": "0..6", "labels": 2, "pulsetimes_units": [0, 0.5, 1, 2], "units_us": [1_000_000, 1_000]},
 }
 RULE = (
@@ -77,6 +77,22 @@ def ingest(bucket, hb, pulsetime):
 
 def _content(e):
     return (S.us_of(e.timestamp), S.dus_of(e.duration), S.canon_data(e.data))
+
+
+NOISE = ("none", "read-other", "failed-delete-of-missing-bucket", "failed-update-of-missing-bucket")
+
+
+def do_noise(ds, name):
+    """what other watchers / API users do between two heartbeats; none of it may disturb the stream"""
+    try:
+        if name == "read-other":
+            ds["other"].get(1)
+        elif name == "failed-delete-of-missing-bucket":
+            ds.delete_bucket("no-such-bucket")
+        elif name == "failed-update-of-missing-bucket":
+            ds.update_bucket("no-such-bucket", type_id="x")
+    except Exception:
+        pass
 
 
 def run_stream(ds, backend, emb, stream, p_units, u, other0, labs, bid="hb"):
@@ -141,6 +157,64 @@ def _setup(backend, wdir, emb, N):
     return ds, S.dump_bucket(ds, "other")
 
 
+def run_stream_noise(ds, backend, emb, stream, p_units, u, other0, labs, noise, bid="hb"):
+    """no observation between the heartbeats (an observation flushes the lazily committing store):
+    heartbeat, noise, heartbeat, noise, heartbeat; compared with heartbeat_reduce at the end"""
+    if bid in ds.buckets():
+        ds.delete_bucket(bid)
+    S.mk_bucket(ds, bid)
+    b = ds[bid]
+    pulsetime = p_units * emb.unit_us / 1_000_000
+    for n, (s, d, lab) in enumerate(stream):
+        if n > 0:
+            do_noise(ds, noise[n - 1])
+        try:
+            how = ingest(b, emb.ev(s, d, labs[lab]), pulsetime)
+        except Exception as e:
+            return [("raised-" + type(e).__name__, str(e), n)]
+        u.transitions += 1
+        u.evaluations += 1
+        u.hist[how] += 1
+    got = sorted(t[1:] for t in S.dump_bucket(ds, bid))
+    want = sorted(_content(e) for e in heartbeat_reduce([emb.ev(*x[:2], labs[x[2]]) for x in stream], pulsetime))
+    probs = []
+    if got != want:
+        probs.append(("bucket-differs-from-reduce", f"after the stream the bucket holds {got} != heartbeat_reduce {want}", len(stream) - 1))
+    if S.dump_bucket(ds, "other") != other0:
+        probs.append(("other-bucket-changed", "the other bucket changed", len(stream) - 1))
+    return probs
+
+
+def _unit_noise(args):
+    """streams x every sequence of noise operations between the heartbeats"""
+    backend, unit_us, N, chunk, pts = args
+    import itertools
+
+    ctx = _G["ctx"]
+    labs = _G["labs"]
+    emb = Emb(ctx.base, unit_us)
+    u = Unit()
+    ds, other0 = _setup(backend, ctx.wdir(), emb, N)
+    for stream in chunk:
+        for p in pts:
+            for noise in itertools.product(NOISE[1:], repeat=len(stream) - 1):
+                probs = run_stream_noise(ds, backend, emb, stream, p, u, other0, labs, noise)
+                u.traces += 1
+                u.states += 1
+                u.nontrivial += 1
+                for sym, det, n in probs[:1]:
+                    case = {"backend": backend, "unit_us": unit_us, "N": N, "stream": [list(x) for x in stream[: n + 1]], "pulsetime_units": p, "noise": list(noise)}
+                    u.violation(f"{backend}:{sym}:with-interleaved-{noise[min(n, len(noise)) - 1] if noise else 'none'}", f"{backend} stream {list(stream[: n + 1])} pulsetime {p} with {list(noise)} between heartbeats: {det}", case, size=(n + 1) * 100 + 50)
+                    if S.dump_bucket(ds, "other") != other0:
+                        ds, other0 = _setup(backend, ctx.wdir(), emb, N)
+    S.close_all()
+    return u.result()
+
+
+def _dispatch(x):
+    return _unit_noise(x[1]) if x[0] == "noise" else _unit(x[1])
+
+
 def _unit(args):
     backend, unit_us, N, chunk, pts = args
     ctx = _G["ctx"]
@@ -195,11 +269,25 @@ def run(ctx):
                 if pk:
                     units.append((backend, unit_us, N, pk, tuple(pts)))
     units.sort(key=lambda x: x[0] != "peewee")
+    units = [("plain", x) for x in units]
+    # phase 2: sub-second lattice (1 ms) -- several events inside one calendar second
+    ms_streams = list(streams(4, 3))
+    for backend in S.BACKENDS:
+        for ch in chunked(ms_streams, ctx.workers):
+            units.append(("plain", (backend, 1_000, 4, ch, (0, 1))))
+            units.append(("plain", (backend, 100_000, 4, ch, (1,))))
+    # phase 3: every sequence of noise operations (reads of / rejected operations on other buckets) between heartbeats
+    nstreams = sorted({s[:k] for s in streams(4 if not ctx.thorough else 5, 3) for k in (2, 3) if len(s) >= k})
+    for backend in S.BACKENDS:
+        for ch in chunked(nstreams, ctx.workers * (2 if backend == "peewee" else 1)):
+            units.append(("noise", (backend, 1_000_000, 4 if not ctx.thorough else 5, ch, (1,))))
     agg = Agg()
-    for r in ctx.pmap(_unit, units):
+    for r in ctx.pmap(_dispatch, units):
         agg.add(r)
     nprefix = count_prefixes(N, L)
-    agg.states = nprefix * len(pts) * len(S.BACKENDS) * len(bd["units_us"])
+    noise_states = agg.states
+    agg.states = nprefix * len(pts) * len(S.BACKENDS) * len(bd["units_us"]) + count_prefixes(4, 3) * 3 * len(S.BACKENDS) + noise_states
+    agg.extra["streams_with_noise_sequences"] = noise_states
     agg.extra["maximal_streams"] = len(allstreams)
     agg.extra["distinct_prefixes_per_backend_and_pulsetime"] = nprefix
     # length-1 prefixes (shared between units) are counted here, once: the zero-length ones
@@ -216,5 +304,8 @@ def run_case(ctx, case):
     u = Unit()
     ds, other0 = _setup(case["backend"], ctx.wdir(), emb, case["N"])
     stream = [tuple(x) for x in case["stream"]]
+    if case.get("noise"):
+        probs = run_stream_noise(ds, case["backend"], emb, stream, case["pulsetime_units"], u, other0, _G["labs"], tuple(case["noise"]) + ("none",) * len(stream))
+        return {"stream": stream, "noise": case["noise"], "bucket_after": S.dump_bucket(ds, "hb"), "violations": [list(p) for p in probs]}
     probs = run_stream(ds, case["backend"], emb, stream, case["pulsetime_units"], u, other0, _G["labs"])
     return {"stream": stream, "bucket_after": S.dump_bucket(ds, "hb"), "violations": [list(p) for p in probs]}
